@@ -408,6 +408,25 @@ class Ctx:
 
 
 CTX: Ctx | None = None
+REPO_PATH = None   # set by the harness layer: root of the repository under test
+
+
+def _innermost_repo_frame(ex):
+    import traceback
+    tb = traceback.extract_tb(ex.__traceback__)
+    if not tb or REPO_PATH is None:
+        return None
+    last = tb[-1]
+    root = REPO_PATH.rstrip("/") + "/"
+    if last.filename.startswith(root):
+        return f"{last.filename[len(root):]}:{last.lineno}"
+    # numpy / python raising inside a repo statement (e.g. IndexError from indexing): innermost repo frame is the caller
+    for fr in reversed(tb):
+        if fr.filename.startswith(root):
+            if any(x in (tb[-1].filename or "") for x in ("/verif/", "symx", "harness")):
+                return None
+            return f"{fr.filename[len(root):]}:{fr.lineno}"
+    return None
 
 
 def ctx() -> Ctx:
@@ -466,6 +485,15 @@ class Explorer:
             except Unencodable as ex:
                 self.unencodable.append(str(ex))
                 self.stats.aborted += 1
+            except Exception as ex:
+                # an exception raised BY THE CODE UNDER TEST on inputs the harness considers valid is a candidate
+                # violation ("terminates / succeeds"); exceptions raised by the machinery itself propagate
+                where = _innermost_repo_frame(ex)
+                if where is None or REPO_PATH is None:
+                    CTX = None
+                    raise
+                c.prove(False, f"unexpected_exception:{type(ex).__name__}", info=dict(error=repr(ex)[:200], where=where))
+                self.stats.paths += 1
             finally:
                 CTX = None
             stack.extend(c.pending)
